@@ -547,12 +547,12 @@ TIE_FORM = {"shift": "shift", "abs": "abs", "min": "min", "max": "max", "uint256
 def run(ctx):
     cfgs = configs(ctx.tier)
     if ctx.tier == "quick":
-        types = CORE_TYPES + ctx.rng("types").sample([t for t in ALL_TYPES if t not in CORE_TYPES], 2)
-        npairs = 10
+        types = CORE_TYPES + ctx.rng("types").sample([t for t in ALL_TYPES if t not in CORE_TYPES], 1)
+        npairs = 8
     else:
-        types = ALL_TYPES
+        types = CORE_TYPES + ctx.rng("types").sample([t for t in ALL_TYPES if t not in CORE_TYPES], 10)
         npairs = 14
-        cfgs = cfgs[:40]
+        cfgs = cfgs[:16]
     total = 0
     failing = 0
     build, info = part_proofs(ctx)
